@@ -139,7 +139,12 @@ fn stmt_inside_finally(
 ) -> bool {
   use deno_ast::view::Node::*;
   match (cur_node, stmt_kind.label()) {
-    (Function(_), _) | (ArrowExpr(_), _) => false,
+    (Function(_), _)
+    | (ArrowExpr(_), _)
+    | (GetterProp(_), _)
+    | (SetterProp(_), _)
+    | (Constructor(_), _)
+    | (StaticBlock(_), _) => false,
     (LabeledStmt(labeled_stmt), Some(label))
       if labeled_stmt.label.sym() == label.sym() =>
     {
